@@ -40,6 +40,9 @@ def residue(draw, resname, types, max_atoms=4, allow_vs=True, prefix=None):
         # an extra virtual site constructed from the first two atoms
         atoms.append({"name": f"{prefix}v", "type": draw(st.sampled_from(types)), "mass": 0.0})
         vs = {"kind": "2", "atoms": [n, 0, 1], "params": ["1", str(draw(st.sampled_from([0.3, 0.5, 0.7])))]}
+        if draw(st.integers(0, 2)) == 0:
+            # [ virtual_sitesn ], centre of geometry of one or two atoms ("site funct from ...")
+            vs = {"kind": "n", "atoms": [n, 0, 1][:draw(st.integers(2, 3))], "params": ["1"]}
     return {"resname": resname, "atoms": atoms, "bonds": bonds, "vs": vs}
 
 
@@ -143,10 +146,14 @@ def render_moltype(mt):
         lines.append(f"{idx} {at['type']} {resid} {resname} {at['name']} {idx} 0.0{mass}")
     bonds = []
     vs2 = []
+    vsn = []
     for r, res in enumerate(mt["residues"]):
         for i, j, length in res["bonds"]:
             bonds.append(f"{first[r] + i} {first[r] + j} 1 {length} 1000")
-        if res["vs"]:
+        if res["vs"] and res["vs"]["kind"] == "n":
+            a = [first[r] + k for k in res["vs"]["atoms"]]
+            vsn.append(f"{a[0]} {res['vs']['params'][0]} " + " ".join(map(str, a[1:])))
+        elif res["vs"]:
             a = [first[r] + k for k in res["vs"]["atoms"]]
             vs2.append(" ".join(map(str, a)) + " " + " ".join(res["vs"]["params"]))
     angles = []
@@ -173,6 +180,9 @@ def render_moltype(mt):
     if vs2:
         lines.append("[ virtual_sites2 ]")
         lines += vs2
+    if vsn:
+        lines.append("[ virtual_sitesn ]")
+        lines += vsn
     return lines
 
 
